@@ -7,7 +7,11 @@ from gen import enc_struct
 HOSTILE_OBJS = ["N", "I0.5", "S" + vlib.hx("s"), "Li(I0.1,N)", "Q", "Z", "P(I0.5)", "O0(S61=S62)", "O1(I0.1=I0.2)", "B1",
                 "R(%s=Z,%s=Q)" % (vlib.hx("C"), vlib.hx("D")), "R(%s=X(Z))" % vlib.hx("I"), "M(%s=Z)" % vlib.hx("k"),
                 "M(%s=R(%s=I8.1))" % (vlib.hx("k"), vlib.hx("F")), "P(P(R(%s=I0.1)))" % vlib.hx("F"), "R(%s=U8.200,%s=I8.1,%s=F32.3fc0000000000000)" % (vlib.hx("A"), vlib.hx("B"), vlib.hx("C")),
-                "R(%s=Lt(),%s=Li(),%s=M())" % (vlib.hx("A"), vlib.hx("B"), vlib.hx("C"))]
+                "R(%s=Lt(),%s=Li(),%s=M())" % (vlib.hx("A"), vlib.hx("B"), vlib.hx("C")),
+                # maps and slices that were never made (nil), as fields, map values, behind pointers and as the object itself
+                "R(%s=m,%s=o,%s=l)" % (vlib.hx("A"), vlib.hx("B"), vlib.hx("C")), "R(%s=o,%s=y,%s=m)" % (vlib.hx("A"), vlib.hx("B"), vlib.hx("C")),
+                "M(%s=m,%s=l,%s=o)" % (vlib.hx("A"), vlib.hx("B"), vlib.hx("C")), "P(R(%s=y,%s=m,%s=Q))" % (vlib.hx("A"), vlib.hx("B"), vlib.hx("C")),
+                "m", "o", "l", "R(%s=X(m),%s=X(l),%s=X(Q))" % (vlib.hx("A"), vlib.hx("B"), vlib.hx("C"))]
 
 FAULTY = ["return 1 / 0;", "return 1 % 0;", "return 1.5 % 0;", "return [1][\"a\"];", "return \"a\" - 1;", "a = b = 3;", "y = x++;", "x += 1 + 2; return x;",
           "panic(\"boom\");", "panic();", "return nosuch(1);", "function f(a) { return a; } return f();", "return {[1]: 2};", "foreach x in 5 { }",
@@ -40,7 +44,10 @@ class C08(Prop):
             for obj in ["N", benign]:
                 out.append(case(src, obj, "faulty"))
         for obj in HOSTILE_OBJS:
-            for src in ["return Field;", "return A;", "x = k; return B;", "return 1;", "foreach k, v in A { t(k); } return C;"]:
+            for src in ["return Field;", "return A;", "x = k; return B;", "return 1;", "foreach k, v in A { t(k); } return C;", "return B;", "return C;",
+                        "return len(A) + len(B) + len(C);", "return [A[\"x\"], B[0], C[1]];", "if (A) { return 1; } if (B) { return 2; } return C ? 3 : 4;",
+                        "return [type(A), type(B), type(C), string(A), keys(A)];", "h = {\"a\": A, \"b\": B}; foreach v in C { t(v); } return h;",
+                        "return (A == B) || (B in C) || !A;"]:
                 out.append(case(src, obj, "hostile-object"))
         n = 30000 if tier == "thorough" else 1500
         seeds = [gen.Gen(rng, max_depth=2).program(nstmts=rng.randint(1, 5), nfuncs=rng.randint(0, 2), depth=2) for _ in range(60)]
